@@ -774,6 +774,11 @@ class Exec:
             model = self.sym_models.get(ast.unparse(node.value))
             if model is not None and hasattr(model, 'getitem'):
                 return model.getitem(self, st, base, idx, node)
+        if is_z3(base) and base.sort() == z3.StringSort():
+            i = as_int(self, st, idx)
+            n = z3.Length(base)
+            self.oblige(st, f'line {node.lineno}: string index in range', z3.And(i >= -n, i < n))
+            return [('ok', st, z3.SubString(base, z3.If(i < 0, n + i, i), 1))]
         seq = as_seq(self, st, base, f'line {node.lineno}: subscript')
         i = as_int(self, st, idx)
         n = z3.Length(seq)
